@@ -105,7 +105,7 @@ def run_case(ctx, kind_, idx):
                     ctx.violation("trend_changed_x_or_shape", cid, {"case": info})
                     return
                 sc = np.maximum(np.abs(want), np.abs(y)) + 1e-300
-                if np.any(np.abs(gy - want) > 1e-12 * sc + 1e-12 * mag):
+                if not np.all(np.abs(gy - want) <= 1e-12 * sc + 1e-12 * mag):
                     i = int(np.argmax(np.abs(gy - want)))
                     ctx.violation("trend_value", cid, {"i": i, "x_i": float(x[i]), "got": float(gy[i]),
                                                        "want": float(want[i]), "case": info})
@@ -128,7 +128,7 @@ def run_case(ctx, kind_, idx):
                 ctx.judged()
                 ctx.monitor("c14:trend_additive")
                 sc = np.abs(y) + np.abs(a1 - y) + np.abs(a2 - y) + 1e-300
-                if np.any(np.abs(a12 - s12) > 1e-9 * sc) or np.any(np.abs(a12 - a21) > 1e-9 * sc):
+                if not np.all(np.abs(a12 - s12) <= 1e-9 * sc) or not np.all(np.abs(a12 - a21) <= 1e-9 * sc):
                     ctx.violation("trends_do_not_add_up", cid, {"case": info})
                     return
                 ctx.nontriv("c14", idx)
@@ -209,11 +209,11 @@ def run_case(ctx, kind_, idx):
                 if g[imin] != lo:
                     ctx.violation("normalize_min_not_exact", cid, {"got": float(g[imin]), "want": lo, "case": info})
                     return
-                if abs(float(g[imax]) - hi) > 1e-9 * max(abs(lo), abs(hi), rng_t):
+                if not abs(float(g[imax]) - hi) <= 1e-9 * max(abs(lo), abs(hi), rng_t):
                     ctx.violation("normalize_max", cid, {"got": float(g[imax]), "want": hi, "case": info})
                     return
                 want = (a - a.min()) / (a.max() - a.min()) * rng_t + lo
-                if np.max(np.abs(g - want)) > 1e-9 * max(abs(lo), abs(hi), rng_t):
+                if not np.max(np.abs(g - want)) <= 1e-9 * max(abs(lo), abs(hi), rng_t):
                     ctx.violation("normalize_not_affine", cid, {"case": info})
                     return
                 o = np.argsort(a, kind="stable")
